@@ -14,6 +14,7 @@ import (
 	"encoding/base64"
 	"encoding/hex"
 	"encoding/json"
+	"errors"
 	"fmt"
 	"strings"
 
@@ -39,6 +40,9 @@ func (j *JSONEnvelope) IsValid() (bool, error) {
 	// if no sig or pk we don't try to verify
 	if j.Signature == nil && j.PublicKey == nil {
 		return true, nil
+	}
+	if j.Signature == nil || j.PublicKey == nil {
+		return false, errors.New("json envelope has only one of signature and publicKey")
 	}
 	// parse and validate public key
 	pub, err := hex.DecodeString(*j.PublicKey)
